@@ -46,6 +46,16 @@ CHECKS = {
              'compared with the detailed model: drift is reported, not alarmed).',
         design='5/C16', technique='TLA+ object-heap model of policy application, TLC exhaustive + TLC trace validation',
         note='Forward rule set fixed; sharing observed via id() classes and a mutate-and-compare probe. ' + TB),
+    'C10': dict(
+        level='model_checking',
+        text='TLC exhaustively explores the SmtpClient model (reply-object FIFO, unflushed send buffer, LMTP recipient '
+             'list, abstract peer choosing every reply class) over all call sequences to the bound for SMTP/LMTP x '
+             'PIPELINING on/off and proves pairing / never-reads-unowed / all-consumed / LMTP pairs; real Client and '
+             'LmtpClient sessions against a scripted peer (every class assignment of a transaction skeleton, every call '
+             'sequence to a depth, random multi-transaction sessions, three segmentation modes) are validated by TLC '
+             'against the observer spec.',
+        design='5/C10', technique='TLA+ client/peer model, TLC exhaustive + TLC trace validation of real sessions',
+        note='Scripted peer semantics as in DESIGN.md section 7 (C10); content only after 354. ' + TB),
 }
 
 HOOK_COMMITS = []
